@@ -7388,6 +7388,11 @@ static PyObject *b_gcp(PyObject *self, PyObject *args, PyObject *kwds)
     }
 
     cd = allocate_gcp_object(origobj, origobj->c_type, destructor);
+    if (cd != NULL && (origobj->c_type->ct_flags & CT_ARRAY) &&
+            origobj->c_type->ct_length < 0) {
+        /* 'type[]': the length lives in the object, not in the ctype */
+        ((CDataObject_gcp *)cd)->length = get_array_length(origobj);
+    }
     return (PyObject *)cd;
 }
 
